@@ -11,6 +11,7 @@ import Noodles.Gff.DriverC18
 import Noodles.Trunc.DriverC13
 import Noodles.Bam.DriverC05
 import Noodles.Bgzf.DriverC14
+import Noodles.Vcf.DriverC09
 namespace Noodles
 open Noodles.Wire
 
@@ -28,6 +29,7 @@ def dispatch (line : String) : String :=
   | "c13" :: rest => Trunc.handleC13 rest
   | "c05" :: rest => Bam.Driver.handle rest
   | "c14" :: rest => Bgzf.SM.handleC14 rest
+  | "c09" :: rest => Vcf.Driver.handle rest
   | _ => "bad-suite"
 
 end Noodles
